@@ -16,11 +16,14 @@ ACTIONS = [("AUPW", "UPW"), ("UWrite",), ("UFinishCommit",), ("AShrink", "Shrink
 def configs(quick):
     if quick:
         return [dict(cap=2, max=8, sizes=[1, 3, 9], recs=3, nodes=3, shrink=[1], nshrink=1, xrecs=3),
-                dict(cap=4, max=8, sizes=[3, 5, 8], recs=3, nodes=2, shrink=[2], nshrink=1, xrecs=3)]
+                dict(cap=4, max=8, sizes=[3, 5, 8], recs=3, nodes=2, shrink=[2], nshrink=1, xrecs=3),
+                dict(cap=2, max=6, sizes=[2, 5, 7], recs=2, nodes=3, shrink=[1], nshrink=0, xrecs=2)]
     return [dict(cap=2, max=8, sizes=[1, 2, 3, 9], recs=4, nodes=3, shrink=[1], nshrink=1, xrecs=3),
             dict(cap=4, max=8, sizes=[3, 4, 5, 8], recs=4, nodes=3, shrink=[2, 4], nshrink=2, xrecs=3),
             dict(cap=2, max=16, sizes=[1, 2, 5, 16, 17], recs=4, nodes=4, shrink=[1, 2], nshrink=1, xrecs=3),
-            dict(cap=4, max=4, sizes=[1, 4, 5], recs=4, nodes=2, shrink=[1, 2], nshrink=2, xrecs=4)]
+            dict(cap=4, max=4, sizes=[1, 4, 5], recs=4, nodes=2, shrink=[1, 2], nshrink=2, xrecs=4),
+            dict(cap=2, max=6, sizes=[1, 2, 5, 6, 7], recs=3, nodes=3, shrink=[1], nshrink=1, xrecs=3),
+            dict(cap=4, max=12, sizes=[3, 9, 12, 13], recs=3, nodes=3, shrink=[2], nshrink=1, xrecs=3)]
 
 
 def replay_behaviours(ck, exe, behs, c, label):
@@ -63,7 +66,8 @@ def fuzz(ck, seeds, quick, cfg="TraceStream.cfg", prefix="uspsc"):
     rng = random.Random(ck.seed)
     exe = spsc.build("uint8_t")
     scripts, meta = [], []
-    for cap, mx in ((2, 8), (4, 4), (4, 32), (8, 64), (16, 1024), (64, 256)):
+    # maximum capacities that are and are not powers of two
+    for cap, mx in ((2, 8), (4, 4), (4, 32), (8, 64), (16, 1024), (64, 256), (2, 6), (4, 12), (8, 100), (16, 3000)):
         L = []
         for s in range(seeds):
             seed = rng.randrange(1, 2 ** 30)
@@ -168,6 +172,8 @@ def run(ck):
                 ck.drifted(f"{label}: model violates {r.violated} but the real code does not reproduce it ({i_level})")
             continue
         for act in ACTIONS:
+            if act[0] == "AShrink" and c["nshrink"] == 0:
+                continue
             if not vlib.enabled(r, *act):
                 raise vlib.Infra(f"vacuity: {act[0]} never enabled for {label}")
         behs = vlib.behaviours(r)
